@@ -99,7 +99,7 @@ func refRangeChoice(produces []string, media string) int {
 }
 
 // H_C05: the written entity's media type is produced by the route and best for Accept.
-// part/nparts: this run covers the headers whose length is congruent to part modulo nparts
+// part/nparts: this run covers the headers whose key (length, plus capacity+1 if there is a comma) is congruent to part modulo nparts
 // mode 3: skeleton "<type>;<name>=<value>,<type>" with a symbolic parameter name (1 or 2 bytes) and value (exactly capN bytes)
 // mode 0: <=2 ranges, <=1 parameter each; 1: <=2 ranges, <=2 parameters; 2: built-in names with a symbolic tail
 func H_C05(prodCfg, mode, capN, part, nparts int) {
@@ -124,8 +124,10 @@ func H_C05(prodCfg, mode, capN, part, nparts int) {
 	}
 	verifAssume(strings.Count(accept, ",") <= 1)
 	if nparts > 1 {
-		// the input space is partitioned by header length so that cores share the work
-		verifAssume(len(accept)%nparts == part)
+		// the input space is partitioned (by header length and by whether there is a second range) so
+		// that cores share the work
+		key := len(accept) + vIte(strings.Contains(accept, ","), capN+1, 0)
+		verifAssume(key%nparts == part)
 	}
 	// stated bound on parameters per range
 	ci := strings.Index(accept, ",")
